@@ -1069,6 +1069,11 @@ func (fx *FnCtx) ret(x *ssa.Return) {
 	for _, h := range fx.fc.ExitHints {
 		env := fx.env(fx.cur)
 		env.results = results
+		// locals are resolved where the return stands; one that is not in scope there denotes an arbitrary value
+		if x.Pos().IsValid() {
+			env.pos = x.Pos()
+			env.laxLocals = true
+		}
 		for n, pv := range fx.paramTerm {
 			env.bound[n] = pv
 		}
